@@ -4,6 +4,7 @@ From InToto.Model Require Import Base Json Rule Glob Rules Utf8 Match DirDigest 
 From InToto.Model Require EntryRun.
 From InToto.Model Require Import EntryResolve.
 From InToto.Model Require EntryRecord.
+From InToto.Model Require EntryStreams.
 
 Definition s_ok : str := [111;107]%N.
 Definition jok (j : json) : json := JDict [(s_ok, j)].
@@ -127,7 +128,7 @@ Definition run_op (op : str) (arg : json) : json :=
   else if eqs op op_ostree then ostree_op arg
   else if eqs op op_rules_trace then rules_trace arg
   else if eqs op op_fnmatch then fnmatch_op arg
-  else
+  else match EntryStreams.run_op_streams op arg with Some j => j | None =>
   if eqs op op_lower then match arg with JStr s => jok (JStr (lower s)) | _ => jerr EUnmodelled end
   else if eqs op op_upper then match arg with JStr s => jok (JStr (upper s)) | _ => jerr EUnmodelled end
   else if eqs op op_unpack_rule then jres meaning_json (unpack_rule arg)
@@ -136,6 +137,7 @@ Definition run_op (op : str) (arg : json) : json :=
     jres jstr_list (do m <- unpack_rule arg; pack_rule m)
   else match EntryRun.run_op_run op arg with Some r => r | None =>
   jerr EUnmodelled end
+  end
   end.
 
 Definition bad_request : list N := [66;65;68;45;82;69;81;85;69;83;84]%N.
